@@ -5,7 +5,8 @@ Regenerate lean/IsobarV/Generated/Tables.lean from the working tree of the repos
 file is rewritten only when its content changes, so an unchanged repo costs no rebuild.
 
 The tables are plain, import-free Lean data.  Theorems that quantify over them (C13:
-`builtin_scales_wf`, the note-name round trips) are therefore re-checked by the Lean kernel against
+`builtin_scales_wf`, the note-name round trips; C03: the key whitelist, the EVENT_* names the model
+assumes, the library defaults) are therefore re-checked by the Lean kernel against
 what the source says *now*: editing `Scale.dict` or `note_names` in the repo can break a proof
 obligation, which the check then reports.
 
@@ -77,7 +78,10 @@ def section_scales(iso) -> str:
     return ("/-- One row of `Scale.dict` (isobar/scale.py). -/\n"
             "structure ScaleRow where\n  name : String\n  semitones : List Int\n  octave : Int\n  deriving Repr\n\n"
             "/-- `Scale.dict` as it is right after `import isobar`, in definition order. -/\n"
-            "def scaleTable : List ScaleRow := [\n" + ",\n".join(rows) + "\n]\n")
+            "def scaleTable : List ScaleRow := [\n" + ",\n".join(rows) + "\n]\n\n"
+            "/-- the names of `scaleTable`, in the same order, as character lists (for kernel evaluation of\n"
+            "    `Key(\"C# minor\")`, C03). -/\n"
+            "def scaleNameChars : List (List Char) := [\n" + ",\n".join("  " + lean_chars(str(n)) for n in iso.Scale.dict) + "\n]\n")
 
 
 def section_note_names(iso) -> str:
@@ -90,7 +94,51 @@ def section_note_names(iso) -> str:
             "def noteNames : List (List (List Char)) := [\n" + ",\n".join(rows) + "\n]\n")
 
 
-SECTIONS = [section_scales, section_note_names]
+def lean_gval(v) -> str:
+    """A Python default value as a `GVal` literal (plain data; floats as exact fractions)."""
+    from fractions import Fraction
+    if v is None:
+        return "GVal.none"
+    if isinstance(v, bool):
+        return "GVal.bool %s" % ("true" if v else "false")
+    if isinstance(v, int):
+        return "GVal.int %s" % lean_int(v)
+    if isinstance(v, float) and v == v and v not in (float("inf"), float("-inf")):
+        fr = Fraction(v)
+        return "GVal.flt %s %d" % (lean_int(fr.numerator), fr.denominator)
+    if isinstance(v, str):
+        return "GVal.str %s" % lean_str(v)
+    if type(v).__name__ == "Key" and hasattr(v, "tonic") and hasattr(v, "scale"):
+        sem = list(v.scale.semitones)
+        if isinstance(v.tonic, int) and all(isinstance(x, int) for x in sem) and isinstance(v.scale.octave_size, int):
+            return "GVal.key %s %s %s" % (lean_int(v.tonic), lean_ints(sem), lean_int(v.scale.octave_size))
+    return "GVal.other %s" % lean_str(type(v).__name__)
+
+
+def section_event_constants(iso) -> str:
+    """isobar/constants.py: ALL_EVENT_PARAMETERS, every EVENT_* name, the event-type names; and
+    isobar/timelines/event.py: EventDefaults.default_values in definition order (C03)."""
+    from isobar import constants
+    from isobar.timelines.event import EventDefaults
+    names = [(n, getattr(constants, n)) for n in vars(constants)
+             if (n.startswith("EVENT_") or n.startswith("DEFAULT_EVENT_")) and isinstance(getattr(constants, n), (str, int, float))]
+    rows_names = ["  (%s, %s)" % (lean_str(n), lean_gval(v)) for n, v in names]
+    params = [p if isinstance(p, str) else repr(p) for p in constants.ALL_EVENT_PARAMETERS]
+    rows_def = ["  (%s, %s)" % (lean_str(str(k)), lean_gval(v)) for k, v in EventDefaults.default_values.items()]
+    return ("/-- A constant / default value of the repository as plain data (`flt` = a Python float as an exact fraction). -/\n"
+            "inductive GVal where\n  | none\n  | bool (b : Bool)\n  | int (i : Int)\n  | flt (num : Int) (den : Nat)\n"
+            "  | str (s : String)\n  | key (tonic : Int) (semitones : List Int) (octave : Int)\n  | other (typeName : String)\n"
+            "  deriving Repr, DecidableEq\n\n"
+            "/-- `ALL_EVENT_PARAMETERS` (isobar/constants.py): the keys an event dictionary may contain. -/\n"
+            "def allEventParameters : List String := [\n  " + ", ".join(lean_str(p) for p in params) + "\n]\n\n"
+            "/-- every `EVENT_*` / `DEFAULT_EVENT_*` constant of isobar/constants.py: (Python name, value). -/\n"
+            "def eventConstants : List (String × GVal) := [\n" + ",\n".join(rows_names) + "\n]\n\n"
+            "/-- `EventDefaults.default_values` (isobar/timelines/event.py), in definition order = the order of\n"
+            "    `defaults.__dict__.items()` in `Event.__init__`. -/\n"
+            "def eventDefaults : List (String × GVal) := [\n" + ",\n".join(rows_def) + "\n]\n")
+
+
+SECTIONS = [section_scales, section_note_names, section_event_constants]
 
 
 def render() -> str:
